@@ -276,6 +276,31 @@ func runC18(p *Prog, r *Report) {
 								extra = g
 							}
 						}
+						// ... nor any other condition at all, if the wait can still be reached when
+						// it fails ("arm the timer only if the queue looks empty now": the queue is
+						// looked at again, later, by the select, and by then another receiver may
+						// have taken the message)
+						if extra == "" && timerSubst[a] == nil {
+							for _, at := range p.GuardsOf(a.Block()) {
+								g := NormAtom(at.Cond, at.Pol)
+								if g == arg+" > 0" || strings.Contains(strings.ToLower(g), "besteffort") {
+									continue
+								}
+								for _, ifb := range fn.Blocks {
+									iff, ok := ifb.Instrs[len(ifb.Instrs)-1].(*ssa.If)
+									if !ok || iff.Cond != at.Cond {
+										continue
+									}
+									opp := ifb.Succs[1]
+									if !at.Pol {
+										opp = ifb.Succs[0]
+									}
+									if opp == sel.Block() || reach[opp.Index][sel.Block().Index] {
+										extra = g
+									}
+								}
+							}
+						}
 						r.Check(extra == "", R, base+"/after-guard-exact", p.InstrPos(a), "armed whenever "+arg+" > 0", "time.After("+arg+") is armed only under the further condition "+extra+": when that condition fails a positive deadline is ignored and the call can block beyond it")
 						if mn == "SendMsg" && hasClosedQ {
 							be := false
@@ -307,6 +332,23 @@ func runC18(p *Prog, r *Report) {
 										break
 									}
 									e = ct.X
+								}
+								// the converse: on every way into the wait on which best-effort is known
+								// to be on, the timer channel is the closed one (anything else blocks)
+								{
+									isClosed := false
+									if u, ok := e.(*ssa.UnOp); ok {
+										if g, ok := u.X.(*ssa.Global); ok && g.Name() == "closedQ" {
+											isClosed = true
+										}
+									}
+									if !isClosed && i < len(ph.Block().Preds) {
+										for _, a := range p.GuardsOf(ph.Block().Preds[i]) {
+											if a.Pol && strings.Contains(strings.ToLower(Desc(a.Cond)), "besteffort") {
+												r.Bad(R, base+"/besteffort-never-waits", p.InstrPos(in), "with best-effort on, a path reaches the blocking select of SendMsg with the timer channel "+Desc(e)+" instead of the closed (always ready) channel: the best-effort send blocks under back-pressure (a 'room in the queue' test made before the select does not help: the queue can fill, or have a smaller capacity than the option says, by the time of the send)")
+											}
+										}
+									}
 								}
 								if u, ok := e.(*ssa.UnOp); ok {
 									if g, ok := u.X.(*ssa.Global); ok && g.Name() == "closedQ" {
